@@ -205,7 +205,7 @@ func (s *c02Seq) seed() {
 // step performs one derived operation; returns false after a violation.
 func (s *c02Seq) step() bool {
 	r := s.r
-	switch r.Intn(37) {
+	switch r.Intn(39) {
 	case 0, 1, 2, 3:
 		if v := s.pick(isSeqN); v != nil {
 			n := 1 + r.Intn(2)
@@ -384,6 +384,27 @@ func (s *c02Seq) step() bool {
 			return false
 		}
 		return s.effect(fmt.Sprintf("(list (eval %s) (eval %s))", cv.name, cv.name), "eval-quoted-code")
+	case 37, 38:
+		// a catch clause whose variable has the name of an existing binding: the caught value is bound in a scope of the
+		// handler's own, the existing binding (global, let-bound, captured) is not touched
+		if a := s.pick(isCollN); a != nil {
+			switch r.Intn(3) {
+			case 0:
+				return s.effect(fmt.Sprintf("(try (throw (list :thrown %s)) (catch %s (count %s)))", s.scalar(), a.name, a.name), "catch-symbol-named-like-binding")
+			case 1:
+				return s.effect(fmt.Sprintf("(try (nth [] 5) (catch %s (str %s)))", a.name, a.name), "catch-symbol-named-like-binding")
+			default:
+				if !s.bind(fmt.Sprintf("(let (loc %s peek (fn () loc)) (list (try (throw :boom) (catch loc (str loc))) loc (peek)))", a.name), "catch-symbol-named-like-local", false, a) {
+					return false
+				}
+				got := s.vals[len(s.vals)-1]
+				if got.snap.K == canon.List && len(got.snap.L) == 3 && (!canon.Equal(got.snap.L[1], a.snap) || !canon.Equal(got.snap.L[2], a.snap)) {
+					s.c.Violate(fw.Violation{Key: "binding-overwritten-by-catch", What: fmt.Sprintf("after (try (throw :boom) (catch loc …)) the local loc and the closure over it read %s and %s, the binding was %s", canon.Render(got.snap.L[1]), canon.Render(got.snap.L[2]), canon.Render(a.snap)), Input: strings.Join(s.log, "\n")})
+					return false
+				}
+				return true
+			}
+		}
 	case 35, 36:
 		// closures made in successive iterations of a self-recursive tail loop each keep the parameters of their own
 		// iteration (a vector that grows from call to call)
